@@ -138,6 +138,18 @@ def oracle_newmark(case, R):
     # growth of rounding errors through the recurrence: bounded by the amplification of the scheme
     amp = max(1.0, np.abs(dr).max() / max(np.abs(dr[:, :2]).max(), np.abs(F).max() / np.abs(A).max(), 1e-300))
     tol = CTOL * EPS * cnd * nt * min(amp, 1e6)
+    if nt > 1000:
+        # long histories: the recurrence is a double summation - a rounding error made at one step comes back as an
+        # oscillation of amplitude error / sin(theta), theta ~ w h the phase advance per step of the slowest mode
+        # (no stiffness: it grows linearly).  Measured on the unchanged tree: 2.2x the short-history bound at
+        # nt = 4097, h = 1e-4 (one undamped mode)
+        try:
+            ev = la.eigvals(np.atleast_2d(K), np.atleast_2d(M))
+            ev = ev[np.isfinite(ev)].real
+            wmin = float(np.sqrt(ev[ev > 0].min())) if np.any(ev > 0) else 0.0
+        except Exception:
+            wmin = 0.0
+        tol *= max(1.0, min(float(nt), 1.0 / max(wmin * h, 1.0 / nt)) / 50.0)
     if nonlin:
         tol *= 100.0      # explicit nonlinear feedback amplifies rounding differences (problem dependent)
     sd = max(np.abs(dr).max(), 1e-300)
